@@ -227,7 +227,7 @@ async def _run_acts(ctx, ev, sp, prog, att, v, uid, bid):
             req = {kk: (v if vv == "{v}" else vv) for kk, vv in (act.get("req") or {}).items()}
             ask = None
             if act.get("ask"):
-                ask = E.BY_NAME[act["ask"]](uid=f"ask:{wid or step}:{v}", v=v, **req)
+                ask = E.BY_NAME[act["ask"]](uid=f"ask:{wid or step + ':' + str(v)}", v=v, **req)
             kwargs = {}
             if "timeout" in act:
                 kwargs["timeout"] = act["timeout"]
